@@ -470,6 +470,8 @@ func propC17b(t *rapid.T) {
 		case "live":
 			guard.Call(30*time.Second, func() { w.env.W.Stop() })
 		}
+		w.closed = true
+		w.apiForget()
 		os.RemoveAll(w.env.Dir)
 		w.node.Close()
 	}()
